@@ -2,13 +2,13 @@ import Dbus.Proofs.Bus.Limits
 /-
   Towards "what every other client observes is the same as if the monitor were absent" (C18).
 
-  `shade b` is the bus `b` in which every monitor is an ordinary idle connection again: it keeps its
+  `shade k b` is the bus `b` in which every monitor is an ordinary idle connection again: it keeps its
   place among the connections (so that every count the limits look at is the same) but is no monitor
   and has no filter.  A monitor has dropped its names and its match rules when it became one
   (`beMonitor`), so such a connection owns nothing, listens to nothing and cannot be addressed.
 
   Proved here: everything that decides who is sent what — the policy gate, the set of match-rule
-  recipients, the capability checks — gives the same answer in `b` and in `shade b`, and hence
+  recipients, the capability checks — gives the same answer in `b` and in `shade k b`, and hence
   routing a message, delivering to match rules and the driver's own sends produce the same ordinary
   deliveries, the same error and the same state changes (`Shadow`).  The copies for monitors live in
   `Tx.mon`, which none of these functions reads.
@@ -16,47 +16,61 @@ import Dbus.Proofs.Bus.Limits
 namespace Dbus.Proofs.Bus
 open Dbus Dbus.Spec Dbus.Model Dbus.Model.Bus
 
-def neutral (x : Conn) : Conn := if x.monitor then { x with monitor := false, rules := [] } else x
+variable {k : Option ConnId}
 
-def shade (b : Bus) : Bus := { b with conns := b.conns.map neutral }
+/-- `k`: a connection exempt from shading (the actor of the dispatch under study, who may turn into a monitor in its course) -/
+def neutral (k : Option ConnId) (x : Conn) : Conn :=
+  if x.monitor && some x.id != k then { x with monitor := false, rules := [] } else x
+
+def shade (k : Option ConnId) (b : Bus) : Bus := { b with conns := b.conns.map (neutral k) }
 
 /-- monitors hold no ordinary match rules (`joinMonitors` dropped them) -/
 def MonClean (b : Bus) : Prop := ∀ x ∈ b.conns, x.monitor = true → x.rules = []
 
-theorem neutral_id (x : Conn) : (neutral x).id = x.id := by unfold neutral; split <;> rfl
-theorem neutral_name (x : Conn) : (neutral x).name = x.name := by unfold neutral; split <;> rfl
-theorem neutral_policy (x : Conn) : (neutral x).policy = x.policy := by unfold neutral; split <;> rfl
-theorem neutral_canFd (x : Conn) : (neutral x).canFd = x.canFd := by unfold neutral; split <;> rfl
-theorem neutral_monitorRules (x : Conn) : (neutral x).monitorRules = x.monitorRules := by unfold neutral; split <;> rfl
-theorem neutral_of_not_monitor {x : Conn} (h : x.monitor = false) : neutral x = x := by unfold neutral; simp [h]
-theorem neutral_rules_of_monitor {x : Conn} (h : x.monitor = true) : (neutral x).rules = [] := by unfold neutral; simp [h]
-theorem neutral_monitor (x : Conn) : (neutral x).monitor = false := by
-  unfold neutral; split
-  · rfl
-  · rename_i h; simpa using h
+theorem neutral_id (x : Conn) : (neutral k x).id = x.id := by unfold neutral; split <;> rfl
+theorem neutral_name (x : Conn) : (neutral k x).name = x.name := by unfold neutral; split <;> rfl
+theorem neutral_policy (x : Conn) : (neutral k x).policy = x.policy := by unfold neutral; split <;> rfl
+theorem neutral_canFd (x : Conn) : (neutral k x).canFd = x.canFd := by unfold neutral; split <;> rfl
+theorem neutral_monitorRules (x : Conn) : (neutral k x).monitorRules = x.monitorRules := by unfold neutral; split <;> rfl
+theorem neutral_of_not_monitor {x : Conn} (h : x.monitor = false) : neutral k x = x := by unfold neutral; simp [h]
+/-- is this connection turned into an idle one? -/
+def shaded (k : Option ConnId) (x : Conn) : Bool := x.monitor && some x.id != k
+theorem neutral_of_shaded {x : Conn} (h : shaded k x = true) : neutral k x = { x with monitor := false, rules := [] } := by
+  unfold shaded at h; unfold neutral; simp only [h, if_true]
+theorem neutral_of_not_shaded {x : Conn} (h : shaded k x = false) : neutral k x = x := by
+  unfold shaded at h; unfold neutral; simp only [h, Bool.false_eq_true, if_false]
+theorem neutral_self {x : Conn} {c : ConnId} (h : x.id = c) : neutral (some c) x = x := by
+  apply neutral_of_not_shaded; unfold shaded; simp [h]
+theorem neutral_monitor_none (x : Conn) : (neutral none x).monitor = false := by
+  cases h : shaded none x with
+  | true => rw [neutral_of_shaded h]
+  | false =>
+    rw [neutral_of_not_shaded h]
+    unfold shaded at h
+    simpa using h
 
 theorem find?_map_neutral (l : List Conn) (c : ConnId) :
-    (l.map neutral).find? (·.id == c) = (l.find? (·.id == c)).map neutral := by
+    (l.map (neutral k)).find? (·.id == c) = (l.find? (·.id == c)).map (neutral k) := by
   induction l with
   | nil => rfl
   | cons x xs ih =>
     simp only [List.map_cons, List.find?_cons, neutral_id x]
     cases (x.id == c) <;> simp [ih]
 
-theorem conn?_shade (b : Bus) (c : ConnId) : (shade b).conn? c = (b.conn? c).map neutral :=
+theorem conn?_shade (b : Bus) (c : ConnId) : (shade k b).conn? c = (b.conn? c).map (neutral k) :=
   find?_map_neutral b.conns c
 
-theorem nameOf_shade (b : Bus) (c : ConnId) : (shade b).nameOf c = b.nameOf c := by
+theorem nameOf_shade (b : Bus) (c : ConnId) : (shade k b).nameOf c = b.nameOf c := by
   unfold Bus.nameOf
   rw [conn?_shade]
   cases b.conn? c with
   | none => rfl
   | some x => simp [neutral_name]
 
-theorem isActive_shade (b : Bus) (c : ConnId) : (shade b).isActive c = b.isActive c := by
+theorem isActive_shade (b : Bus) (c : ConnId) : (shade k b).isActive c = b.isActive c := by
   unfold Bus.isActive; rw [nameOf_shade]
 
-theorem rulesOf_shade (b : Bus) (p : Option ConnId) : rulesOf (shade b) p = rulesOf b p := by
+theorem rulesOf_shade (b : Bus) (p : Option ConnId) : rulesOf (shade k b) p = rulesOf b p := by
   cases p with
   | none => rfl
   | some p =>
@@ -65,38 +79,38 @@ theorem rulesOf_shade (b : Bus) (p : Option ConnId) : rulesOf (shade b) p = rule
     | none => rfl
     | some x => simp [neutral_policy]
 
-theorem canFdOf_shade (b : Bus) (c : ConnId) : canFdOf (shade b) c = canFdOf b c := by
+theorem canFdOf_shade (b : Bus) (c : ConnId) : canFdOf (shade k b) c = canFdOf b c := by
   unfold canFdOf
   rw [conn?_shade]
   cases b.conn? c with
   | none => rfl
   | some x => simp [neutral_canFd]
 
-theorem senderInactive_shade (b : Bus) (s : Option ConnId) : senderInactive (shade b) s = senderInactive b s := by
+theorem senderInactive_shade (b : Bus) (s : Option ConnId) : senderInactive (shade k b) s = senderInactive b s := by
   cases s with
   | none => rfl
   | some s => simp [senderInactive, isActive_shade]
 
 theorem sendAllowed_shade (b : Bus) (s p : Option ConnId) (v : MsgView) (r : Bool) :
-    sendAllowed (shade b) s p v r = sendAllowed b s p v r := by
+    sendAllowed (shade k b) s p v r = sendAllowed b s p v r := by
   unfold sendAllowed
   rw [rulesOf_shade]
   rfl
 
 theorem recvAllowed_shade (b : Bus) (s a p : Option ConnId) (v : MsgView) (r : Bool) :
-    recvAllowed (shade b) s a p v r = recvAllowed b s a p v r := by
+    recvAllowed (shade k b) s a p v r = recvAllowed b s a p v r := by
   unfold recvAllowed
   rw [rulesOf_shade]
   rfl
 
 theorem policyVerdict_shade (b : Bus) (s a p : Option ConnId) (m : Msg) (r : Bool) :
-    policyVerdict (shade b) s a p m r = policyVerdict b s a p m r := by
+    policyVerdict (shade k b) s a p m r = policyVerdict b s a p m r := by
   unfold policyVerdict
   rw [senderInactive_shade, sendAllowed_shade, recvAllowed_shade]
   rfl
 
 theorem requestedReply_shade (b : Bus) (s a p : Option ConnId) (m : Msg) :
-    requestedReply (shade b) s a p m = requestedReply b s a p m := by
+    requestedReply (shade k b) s a p m = requestedReply b s a p m := by
   unfold requestedReply
   cases s with
   | none => rfl
@@ -104,61 +118,63 @@ theorem requestedReply_shade (b : Bus) (s a p : Option ConnId) (m : Msg) :
 
 /-- **the gate does not see monitors** -/
 theorem checkPolicy_shade (b : Bus) (s a p : Option ConnId) (m : Msg) :
-    checkPolicy (shade b) s a p m = checkPolicy b s a p m := by
+    checkPolicy (shade k b) s a p m = checkPolicy b s a p m := by
   unfold checkPolicy
   simp only [requestedReply_shade, policyVerdict_shade]
   rfl
 
 /-- the match-rule recipients are the same: a monitor is excluded, and so is the rule-less connection it is shaded into -/
 theorem recipients_filter_shade (ctx : MatchCtx) (a : Option ConnId) : ∀ (l : List Conn),
-    ((l.map neutral).filter fun c => !c.monitor && some c.id != a && c.rules.any (fun r => ruleMatches r ctx)).map (·.id) =
+    ((l.map (neutral k)).filter fun c => !c.monitor && some c.id != a && c.rules.any (fun r => ruleMatches r ctx)).map (·.id) =
     (l.filter fun c => !c.monitor && some c.id != a && c.rules.any (fun r => ruleMatches r ctx)).map (·.id)
   | [] => rfl
   | x :: xs => by
     have ih := recipients_filter_shade ctx a xs
     simp only [List.map_cons, List.filter_cons]
-    by_cases hm : x.monitor = true
-    · simp only [neutral_monitor, neutral_rules_of_monitor hm, neutral_id, hm, List.any_nil, Bool.and_false, Bool.not_true, Bool.false_and,
-        Bool.false_eq_true, if_false]
+    cases hm : shaded k x with
+    | true =>
+      have hmon : x.monitor = true := by unfold shaded at hm; simp only [Bool.and_eq_true] at hm; exact hm.1
+      rw [neutral_of_shaded hm]
+      simp only [hmon, List.any_nil, Bool.and_false, Bool.not_true, Bool.false_and, Bool.false_eq_true, if_false, Bool.not_false, Bool.true_and]
       exact ih
-    · have hn : neutral x = x := neutral_of_not_monitor (by simpa using hm)
-      rw [hn]
+    | false =>
+      rw [neutral_of_not_shaded hm]
       by_cases hp : (!x.monitor && some x.id != a && x.rules.any fun r => ruleMatches r ctx) = true
       · simp only [hp, if_true, List.map_cons]; rw [ih]
       · simp only [hp, if_false]; exact ih
 
 theorem recipients_shade (b : Bus) (s a : Option ConnId) (m : Msg) :
-    recipients (shade b) s a m = recipients b s a m :=
+    recipients (shade k b) s a m = recipients b s a m :=
   recipients_filter_shade (matchCtx b s a m) a b.conns
 
-theorem stampDriver_shade (b : Bus) (to : ConnId) (m : Msg) : stampDriver (shade b) to m = stampDriver b to m := by
+theorem stampDriver_shade (b : Bus) (to : ConnId) (m : Msg) : stampDriver (shade k b) to m = stampDriver b to m := by
   unfold stampDriver
   rw [nameOf_shade]
 
 /-- the two runs: the same ordinary output so far, and the second bus is the first one shaded -/
-def Shadow (t t' : Tx) : Prop := t'.bus = shade t.bus ∧ t'.out = t.out
+def Shadow (k : Option ConnId) (t t' : Tx) : Prop := t'.bus = shade k t.bus ∧ t'.out = t.out
 
-theorem shade_setPending (b : Bus) (p : List Pending) : shade { b with pending := p } = { shade b with pending := p } := rfl
+theorem shade_setPending (b : Bus) (p : List Pending) : shade k { b with pending := p } = { shade k b with pending := p } := rfl
 
-theorem Shadow.setPending {t t' : Tx} (h : Shadow t t') (p : List Pending) : Shadow (t.setPending p) (t'.setPending p) := by
+theorem Shadow.setPending {t t' : Tx} (h : Shadow k t t') (p : List Pending) : Shadow k (t.setPending p) (t'.setPending p) := by
   refine ⟨?_, h.2⟩
-  show ({ t'.bus with pending := p } : Bus) = shade { t.bus with pending := p }
+  show ({ t'.bus with pending := p } : Bus) = shade k { t.bus with pending := p }
   rw [h.1]; rfl
 
-theorem Shadow.emit {t t' : Tx} (h : Shadow t t') (o : Out) : Shadow (t.emit o) (t'.emit o) :=
+theorem Shadow.emit {t t' : Tx} (h : Shadow k t t') (o : Out) : Shadow k (t.emit o) (t'.emit o) :=
   ⟨h.1, by show t'.out ++ [o] = t.out ++ [o]; rw [h.2]⟩
 
-theorem Shadow.capture {t t' : Tx} (h : Shadow t t') (s a s' a' : Option ConnId) (m m' : Msg) :
-    Shadow (capture t s a m) (capture t' s' a' m') :=
+theorem Shadow.capture {t t' : Tx} (h : Shadow k t t') (s a s' a' : Option ConnId) (m m' : Msg) :
+    Shadow k (capture t s a m) (capture t' s' a' m') :=
   ⟨by rw [(capture_frame _ _ _ _).1, (capture_frame _ _ _ _).1]; exact h.1,
    by rw [(capture_frame _ _ _ _).2, (capture_frame _ _ _ _).2]; exact h.2⟩
 
-theorem Shadow.captureError {t t' : Tx} (h : Shadow t t') (a : Option ConnId) (m : Msg) (e : Err) :
-    Shadow (captureError t a m e) (captureError t' a m e) :=
+theorem Shadow.captureError {t t' : Tx} (h : Shadow k t t') (a : Option ConnId) (m : Msg) (e : Err) :
+    Shadow k (captureError t a m e) (captureError t' a m e) :=
   Shadow.capture h _ _ _ _ _ _
 
-theorem shadow_sendOne {t t' : Tx} (h : Shadow t t') (s a : Option ConnId) (to : ConnId) (m : Msg) :
-    Shadow (sendOne t s a to m) (sendOne t' s a to m) := by
+theorem shadow_sendOne {t t' : Tx} (h : Shadow k t t') (s a : Option ConnId) (to : ConnId) (m : Msg) :
+    Shadow k (sendOne t s a to m) (sendOne t' s a to m) := by
   unfold sendOne
   rw [h.1, checkPolicy_shade, canFdOf_shade]
   rcases checkPolicy t.bus s a (some to) m with ⟨p, err⟩
@@ -170,8 +186,8 @@ theorem shadow_sendOne {t t' : Tx} (h : Shadow t t') (s a : Option ConnId) (to :
     · exact (h.setPending p).captureError _ _ _
     · exact (h.setPending p).emit _
 
-theorem shadow_sendAddressed {t t' : Tx} (h : Shadow t t') (s : Option ConnId) (a : ConnId) (m : Msg) :
-    Shadow (sendAddressed t s a m).1 (sendAddressed t' s a m).1 ∧ (sendAddressed t' s a m).2 = (sendAddressed t s a m).2 := by
+theorem shadow_sendAddressed {t t' : Tx} (h : Shadow k t t') (s : Option ConnId) (a : ConnId) (m : Msg) :
+    Shadow k (sendAddressed t s a m).1 (sendAddressed t' s a m).1 ∧ (sendAddressed t' s a m).2 = (sendAddressed t s a m).2 := by
   unfold sendAddressed
   rw [h.1, checkPolicy_shade, canFdOf_shade]
   rcases checkPolicy t.bus s (some a) (some a) m with ⟨p, err⟩
@@ -183,8 +199,8 @@ theorem shadow_sendAddressed {t t' : Tx} (h : Shadow t t') (s : Option ConnId) (
     · exact ⟨h.setPending p, rfl⟩
     · exact ⟨(h.setPending p).emit _, rfl⟩
 
-theorem shadow_fold_sendOne (s a : Option ConnId) (m : Msg) : ∀ (rs : List ConnId) (t t' : Tx), Shadow t t' →
-    Shadow (rs.foldl (fun t r => sendOne t s a r m) t) (rs.foldl (fun t r => sendOne t s a r m) t')
+theorem shadow_fold_sendOne (s a : Option ConnId) (m : Msg) : ∀ (rs : List ConnId) (t t' : Tx), Shadow k t t' →
+    Shadow k (rs.foldl (fun t r => sendOne t s a r m) t) (rs.foldl (fun t r => sendOne t s a r m) t')
   | [], _, _, h => h
   | r :: rs, t, t', h => shadow_fold_sendOne s a m rs _ _ (shadow_sendOne h s a r m)
 
@@ -192,8 +208,8 @@ theorem shadow_fold_sendOne (s a : Option ConnId) (m : Msg) : ∀ (rs : List Con
 theorem recipients_pending (b : Bus) (p : List Pending) (s a : Option ConnId) (m : Msg) :
     recipients { b with pending := p } s a m = recipients b s a m := rfl
 
-theorem shadow_sendMatches {t t' : Tx} (h : Shadow t t') (s a : Option ConnId) (m : Msg) :
-    Shadow (sendMatches t s a m) (sendMatches t' s a m) := by
+theorem shadow_sendMatches {t t' : Tx} (h : Shadow k t t') (s a : Option ConnId) (m : Msg) :
+    Shadow k (sendMatches t s a m) (sendMatches t' s a m) := by
   unfold sendMatches
   rw [h.1, recipients_shade]
   exact shadow_fold_sendOne s a m _ _ _ h
@@ -207,8 +223,8 @@ theorem sendAddressed_conns (t : Tx) (s : Option ConnId) (a : ConnId) (m : Msg) 
 
 /-- **Match-rule and addressed delivery ignore monitors**: the same ordinary deliveries, the same error,
     the same changes to the pending replies, in `b` and in `b` with its monitors shaded. -/
-theorem shadow_dispatchMatches {t t' : Tx} (h : Shadow t t') (s a : Option ConnId) (m : Msg) :
-    Shadow (dispatchMatches t s a m).1 (dispatchMatches t' s a m).1 ∧ (dispatchMatches t' s a m).2 = (dispatchMatches t s a m).2 := by
+theorem shadow_dispatchMatches {t t' : Tx} (h : Shadow k t t') (s a : Option ConnId) (m : Msg) :
+    Shadow k (dispatchMatches t s a m).1 (dispatchMatches t' s a m).1 ∧ (dispatchMatches t' s a m).2 = (dispatchMatches t s a m).2 := by
   unfold dispatchMatches
   cases a with
   | none => exact ⟨shadow_sendMatches h s none m, rfl⟩
@@ -226,11 +242,11 @@ theorem shadow_dispatchMatches {t t' : Tx} (h : Shadow t t') (s a : Option ConnI
     | none =>
       exact ⟨shadow_sendMatches hs s (some a) m, rfl⟩
 
-theorem primary?_shade (b : Bus) (n : Bytes) : (shade b).primary? n = b.primary? n := rfl
+theorem primary?_shade (b : Bus) (n : Bytes) : (shade k b).primary? n = b.primary? n := rfl
 
 /-- **Routing a message ignores monitors.** -/
-theorem shadow_route {t t' : Tx} (h : Shadow t t') (c : ConnId) (m : Msg) :
-    Shadow (route t c m).1 (route t' c m).1 ∧ (route t' c m).2 = (route t c m).2 := by
+theorem shadow_route {t t' : Tx} (h : Shadow k t t') (c : ConnId) (m : Msg) :
+    Shadow k (route t c m).1 (route t' c m).1 ∧ (route t' c m).2 = (route t c m).2 := by
   unfold route
   rw [h.1, ]
   cases m.dest with
@@ -246,8 +262,8 @@ theorem shadow_route {t t' : Tx} (h : Shadow t t') (c : ConnId) (m : Msg) :
       dsimp only
       exact shadow_dispatchMatches (Shadow.capture h _ _ _ _ _ _) _ _ _
 
-theorem shadow_sendStamped {t t' : Tx} (h : Shadow t t') (to : ConnId) (m : Msg) :
-    Shadow (sendStamped t to m) (sendStamped t' to m) := by
+theorem shadow_sendStamped {t t' : Tx} (h : Shadow k t t') (to : ConnId) (m : Msg) :
+    Shadow k (sendStamped t to m) (sendStamped t' to m) := by
   unfold sendStamped
   rw [h.1, checkPolicy_shade]
   rcases checkPolicy t.bus none (some to) (some to) m with ⟨p, err⟩
@@ -256,21 +272,23 @@ theorem shadow_sendStamped {t t' : Tx} (h : Shadow t t') (to : ConnId) (m : Msg)
   | none => exact (h.setPending p).emit _
 
 /-- **What the bus itself sends (replies, errors, NameAcquired/NameLost) ignores monitors.** -/
-theorem shadow_sendFromDriver {t t' : Tx} (h : Shadow t t') (to : ConnId) (m : Msg) :
-    Shadow (sendFromDriver t to m) (sendFromDriver t' to m) := by
+theorem shadow_sendFromDriver {t t' : Tx} (h : Shadow k t t') (to : ConnId) (m : Msg) :
+    Shadow k (sendFromDriver t to m) (sendFromDriver t' to m) := by
   unfold sendFromDriver
   rw [h.1, stampDriver_shade]
   exact shadow_sendStamped (Shadow.capture h _ _ _ _ _ _) to _
 
-/-! ### towards a whole step: the weaker relation, and writes that commute with `shade` -/
+/-! ### towards a whole step: the weaker relation, and writes that commute with `shade k` -/
 
-theorem neutral_idem (x : Conn) : neutral (neutral x) = neutral x := by
-  unfold neutral
-  by_cases h : x.monitor = true
-  · simp [h]
-  · simp [h]
+theorem neutral_idem (x : Conn) : neutral k (neutral k x) = neutral k x := by
+  cases h : shaded k x with
+  | true =>
+    rw [neutral_of_shaded h]
+    apply neutral_of_not_shaded
+    unfold shaded; rfl
+  | false => rw [neutral_of_not_shaded h, neutral_of_not_shaded h]
 
-theorem shade_idem (b : Bus) : shade (shade b) = shade b := by
+theorem shade_idem (b : Bus) : shade k (shade k b) = shade k b := by
   unfold shade
   simp only [List.map_map]
   congr 1
@@ -279,28 +297,36 @@ theorem shade_idem (b : Bus) : shade (shade b) = shade b := by
   exact neutral_idem x
 
 /-- the two runs agree once their monitors are shaded -/
-def Sim (t t' : Tx) : Prop := shade t'.bus = shade t.bus ∧ t'.out = t.out
+def Sim (k : Option ConnId) (t t' : Tx) : Prop := shade k t'.bus = shade k t.bus ∧ t'.out = t.out
 
-theorem Sim.refl (t : Tx) : Sim t t := ⟨rfl, rfl⟩
-theorem Sim.symm {t t' : Tx} (h : Sim t t') : Sim t' t := ⟨h.1.symm, h.2.symm⟩
-theorem Sim.trans {a b c : Tx} (h1 : Sim a b) (h2 : Sim b c) : Sim a c := ⟨h2.1.trans h1.1, h2.2.trans h1.2⟩
+theorem Sim.refl (t : Tx) : Sim k t t := ⟨rfl, rfl⟩
+theorem Sim.symm {t t' : Tx} (h : Sim k t t') : Sim k t' t := ⟨h.1.symm, h.2.symm⟩
+theorem Sim.trans {a b c : Tx} (h1 : Sim k a b) (h2 : Sim k b c) : Sim k a c := ⟨h2.1.trans h1.1, h2.2.trans h1.2⟩
 
-theorem Shadow.sim {t t' : Tx} (h : Shadow t t') : Sim t t' := ⟨by rw [h.1, shade_idem], h.2⟩
+theorem Shadow.sim {t t' : Tx} (h : Shadow k t t') : Sim k t t' := ⟨by rw [h.1, shade_idem], h.2⟩
 
 /-- every function that respects `Shadow` respects `Sim`: both runs are shadowed by the same shaded run -/
-theorem sim_of_shadow (f : Tx → Tx) (hf : ∀ t t', Shadow t t' → Shadow (f t) (f t')) {t t' : Tx} (h : Sim t t') :
-    Sim (f t) (f t') := by
-  have h1 : Shadow t ({ bus := shade t.bus, out := t.out } : Tx) := ⟨rfl, rfl⟩
-  have h2 : Shadow t' ({ bus := shade t.bus, out := t.out } : Tx) := ⟨h.1.symm, h.2.symm⟩
+theorem sim_of_shadow (f : Tx → Tx) (hf : ∀ t t', Shadow k t t' → Shadow k (f t) (f t')) {t t' : Tx} (h : Sim k t t') :
+    Sim k (f t) (f t') := by
+  have h1 : Shadow k t ({ bus := shade k t.bus, out := t.out } : Tx) := ⟨rfl, rfl⟩
+  have h2 : Shadow k t' ({ bus := shade k t.bus, out := t.out } : Tx) := ⟨h.1.symm, h.2.symm⟩
   have r1 := hf _ _ h1
   have r2 := hf _ _ h2
   exact ⟨by rw [← r2.1, ← r1.1], by rw [← r2.2, ← r1.2]⟩
 
 /-- a per-connection update that does not look at, or touch, the monitor fields -/
-def Blind (g : Conn → Conn) : Prop := ∀ x, neutral (g x) = g (neutral x)
+def Blind (k : Option ConnId) (g : Conn → Conn) : Prop := ∀ x, neutral k (g x) = g (neutral k x)
 
-theorem updConn_shade (b : Bus) (c : ConnId) (g : Conn → Conn) (hg : Blind g) :
-    (shade b).updConn c g = shade (b.updConn c g) := by
+theorem blind_of_fields (g : Conn → Conn) (h1 : ∀ x, (g x).monitor = x.monitor) (h2 : ∀ x, (g x).id = x.id)
+    (h3 : ∀ x, g { x with monitor := false, rules := [] } = { g x with monitor := false, rules := [] }) : Blind k g := by
+  intro x
+  have hs : shaded k (g x) = shaded k x := by unfold shaded; rw [h1, h2]
+  cases h : shaded k x with
+  | true => rw [neutral_of_shaded h, neutral_of_shaded (hs.trans h), h3]
+  | false => rw [neutral_of_not_shaded h, neutral_of_not_shaded (hs.trans h)]
+
+theorem updConn_shade (b : Bus) (c : ConnId) (g : Conn → Conn) (hg : Blind k g) :
+    (shade k b).updConn c g = shade k (b.updConn c g) := by
   unfold Bus.updConn shade
   simp only [List.map_map]
   congr 1
@@ -312,8 +338,8 @@ theorem updConn_shade (b : Bus) (c : ConnId) (g : Conn → Conn) (hg : Blind g) 
   · rfl
 
 /-- a per-connection update applied to a connection that is no monitor commutes with shading whatever it does to the rules -/
-theorem updConn_shade_at (b : Bus) (c : ConnId) (g : Conn → Conn) (hg : ∀ x ∈ b.conns, x.id = c → neutral (g x) = g (neutral x)) :
-    (shade b).updConn c g = shade (b.updConn c g) := by
+theorem updConn_shade_at (b : Bus) (c : ConnId) (g : Conn → Conn) (hg : ∀ x ∈ b.conns, x.id = c → neutral k (g x) = g (neutral k x)) :
+    (shade k b).updConn c g = shade k (b.updConn c g) := by
   unfold Bus.updConn shade
   simp only [List.map_map]
   congr 1
@@ -328,14 +354,14 @@ theorem updConn_shade_at (b : Bus) (c : ConnId) (g : Conn → Conn) (hg : ∀ x 
 def Actor (b : Bus) (c : ConnId) : Prop := ∀ x ∈ b.conns, x.id = c → x.monitor = false
 
 theorem updRules_shade (b : Bus) (c : ConnId) (g : List MatchRule → List MatchRule) (ha : Actor b c) :
-    (shade b).updRules c g = shade (b.updRules c g) := by
+    (shade k b).updRules c g = shade k (b.updRules c g) := by
   apply updConn_shade_at
   intro x hx hid
   have hm := ha x hx hid
   rw [neutral_of_not_monitor hm]
   exact neutral_of_not_monitor (by simpa using hm)
 
-theorem setOwners_shade (b : Bus) (n : Bytes) (os : List Owner) : (shade b).setOwners n os = shade (b.setOwners n os) := by
+theorem setOwners_shade (b : Bus) (n : Bytes) (os : List Owner) : (shade k b).setOwners n os = shade k (b.setOwners n os) := by
   unfold Bus.setOwners
   show (if os.isEmpty = true then _ else if (b.services.any fun x => x.name == n) = true then _ else _) = _
   by_cases h1 : os.isEmpty = true
@@ -345,27 +371,34 @@ theorem setOwners_shade (b : Bus) (n : Bytes) (os : List Owner) : (shade b).setO
     · simp only [h2, if_true]; rfl
     · simp only [h2, if_false]; rfl
 
-theorem syncOwned_shade (b : Bus) (n : Bytes) (os os' : List Owner) : syncOwned (shade b) n os os' = shade (syncOwned b n os os') := by
+theorem syncOwned_shade (b : Bus) (n : Bytes) (os os' : List Owner) : syncOwned (shade k b) n os os' = shade k (syncOwned b n os os') := by
   unfold syncOwned shade
   simp only [List.map_map]
   congr 1
   apply List.map_congr_left
   intro x _
   simp only [Function.comp, neutral_id]
-  unfold neutral
-  by_cases h : x.monitor = true
-  · simp only [h, if_true]
+  cases h : shaded k x with
+  | true =>
+    rw [neutral_of_shaded h]
+    have h' : ∀ l, shaded k ({ x with owned := l } : Conn) = true := fun _ => h
     split
-    · rfl
-    · split <;> rfl
-  · simp only [h]
+    · rw [neutral_of_shaded (h' _)]
+    · split
+      · rw [neutral_of_shaded (h' _)]
+      · rw [neutral_of_shaded h]
+  | false =>
+    rw [neutral_of_not_shaded h]
+    have h' : ∀ l, shaded k ({ x with owned := l } : Conn) = false := fun _ => h
     split
-    · simp [h]
-    · split <;> simp [h]
+    · rw [neutral_of_not_shaded (h' _)]
+    · split
+      · rw [neutral_of_not_shaded (h' _)]
+      · rw [neutral_of_not_shaded h]
 
-theorem ownersOf_shade (b : Bus) (n : Bytes) : ownersOf (shade b) n = ownersOf b n := rfl
+theorem ownersOf_shade (b : Bus) (n : Bytes) : ownersOf (shade k b) n = ownersOf b n := rfl
 
-theorem removeConn_shade (c : ConnId) (b : Bus) : removeConn c (shade b) = shade (removeConn c b) := by
+theorem removeConn_shade (c : ConnId) (b : Bus) : removeConn c (shade k b) = shade k (removeConn c b) := by
   unfold removeConn shade
   simp only
   congr 1
@@ -379,63 +412,63 @@ theorem removeConn_shade (c : ConnId) (b : Bus) : removeConn c (shade b) = shade
 
 /-! ### the registry: signals, queue edits -/
 
-theorem neutral_owned (x : Conn) : (neutral x).owned = x.owned := by unfold neutral; split <;> rfl
-theorem neutral_uid (x : Conn) : (neutral x).uid = x.uid := by unfold neutral; split <;> rfl
+theorem neutral_owned (x : Conn) : (neutral k x).owned = x.owned := by unfold neutral; split <;> rfl
+theorem neutral_uid (x : Conn) : (neutral k x).uid = x.uid := by unfold neutral; split <;> rfl
 
-theorem uniqueOrEmpty_shade (b : Bus) (c : ConnId) : (shade b).uniqueOrEmpty c = b.uniqueOrEmpty c := by
+theorem uniqueOrEmpty_shade (b : Bus) (c : ConnId) : (shade k b).uniqueOrEmpty c = b.uniqueOrEmpty c := by
   unfold Bus.uniqueOrEmpty; rw [nameOf_shade]
 
-theorem connName_shade (b : Bus) (c : Option ConnId) : connName (shade b) c = connName b c := by
+theorem connName_shade (b : Bus) (c : Option ConnId) : connName (shade k b) c = connName b c := by
   cases c with
   | none => rfl
   | some c => exact uniqueOrEmpty_shade b c
 
-theorem connPolicy_shade (b : Bus) (c : ConnId) : connPolicy (shade b) c = connPolicy b c := by
+theorem connPolicy_shade (b : Bus) (c : ConnId) : connPolicy (shade k b) c = connPolicy b c := by
   unfold connPolicy; rw [conn?_shade]
   cases b.conn? c with
   | none => rfl
   | some x => simp [neutral_policy]
 
-theorem nOwned_shade (b : Bus) (c : ConnId) : nOwned (shade b) c = nOwned b c := by
+theorem nOwned_shade (b : Bus) (c : ConnId) : nOwned (shade k b) c = nOwned b c := by
   unfold nOwned; rw [conn?_shade]
   cases b.conn? c with
   | none => rfl
   | some x => simp [neutral_owned]
 
-theorem shadow_sigOwnerChanged {t t' : Tx} (h : Shadow t t') (n o w : Bytes) :
-    Shadow (sigOwnerChanged t n o w) (sigOwnerChanged t' n o w) := by
+theorem shadow_sigOwnerChanged {t t' : Tx} (h : Shadow k t t') (n o w : Bytes) :
+    Shadow k (sigOwnerChanged t n o w) (sigOwnerChanged t' n o w) := by
   unfold sigOwnerChanged
   exact (shadow_dispatchMatches (Shadow.capture h _ _ _ _ _ _) none none _).1
 
-theorem shadow_emitSig {t t' : Tx} (h : Shadow t t') (n : Bytes) (s : Sig) :
-    Shadow (emitSig n t s) (emitSig n t' s) := by
+theorem shadow_emitSig {t t' : Tx} (h : Shadow k t t') (n : Bytes) (s : Sig) :
+    Shadow k (emitSig n t s) (emitSig n t' s) := by
   cases s with
   | lost c => exact shadow_sendFromDriver h c _
   | acquired c => exact shadow_sendFromDriver h c _
   | changed o w =>
-    show Shadow (sigOwnerChanged t n (connName t.bus o) (connName t.bus w)) (sigOwnerChanged t' n (connName t'.bus o) (connName t'.bus w))
+    show Shadow k (sigOwnerChanged t n (connName t.bus o) (connName t.bus w)) (sigOwnerChanged t' n (connName t'.bus o) (connName t'.bus w))
     rw [h.1, connName_shade, connName_shade]
     exact shadow_sigOwnerChanged h n _ _
 
-theorem shadow_emitSigs (n : Bytes) : ∀ (sigs : List Sig) {t t' : Tx}, Shadow t t' →
-    Shadow (sigs.foldl (emitSig n) t) (sigs.foldl (emitSig n) t')
+theorem shadow_emitSigs (n : Bytes) : ∀ (sigs : List Sig) {t t' : Tx}, Shadow k t t' →
+    Shadow k (sigs.foldl (emitSig n) t) (sigs.foldl (emitSig n) t')
   | [], _, _, h => h
   | s :: sigs, t, t', h => by
     simp only [List.foldl_cons]
     exact shadow_emitSigs n sigs (shadow_emitSig h n s)
 
-theorem shadow_applyQueue {t t' : Tx} (h : Shadow t t') (n : Bytes) (os' : List Owner) (sigs : List Sig) :
-    Shadow (applyQueue t n os' sigs) (applyQueue t' n os' sigs) := by
+theorem shadow_applyQueue {t t' : Tx} (h : Shadow k t t') (n : Bytes) (os' : List Owner) (sigs : List Sig) :
+    Shadow k (applyQueue t n os' sigs) (applyQueue t' n os' sigs) := by
   unfold applyQueue
   have hs := shadow_emitSigs n sigs h
   refine ⟨?_, hs.2⟩
   show syncOwned ((sigs.foldl (emitSig n) t').bus.setOwners n os') n (ownersOf t'.bus n) os' =
-    shade (syncOwned ((sigs.foldl (emitSig n) t).bus.setOwners n os') n (ownersOf t.bus n) os')
+    shade k (syncOwned ((sigs.foldl (emitSig n) t).bus.setOwners n os') n (ownersOf t.bus n) os')
   rw [hs.1, h.1, setOwners_shade, syncOwned_shade]
   rfl
 
-theorem shadow_acquire {t t' : Tx} (h : Shadow t t') (c : ConnId) (n : Bytes) (flags : Nat) :
-    Shadow (acquire t c n flags).1 (acquire t' c n flags).1 ∧ (acquire t' c n flags).2 = (acquire t c n flags).2 := by
+theorem shadow_acquire {t t' : Tx} (h : Shadow k t t') (c : ConnId) (n : Bytes) (flags : Nat) :
+    Shadow k (acquire t c n flags).1 (acquire t' c n flags).1 ∧ (acquire t' c n flags).2 = (acquire t c n flags).2 := by
   unfold acquire
   rw [h.1, connPolicy_shade, nOwned_shade]
   by_cases g1 : (!validateBusName n) = true
@@ -451,14 +484,14 @@ theorem shadow_acquire {t t' : Tx} (h : Shadow t t') (c : ConnId) (n : Bytes) (f
   · simp only [g4, if_true]; first | exact ⟨h, rfl⟩ | exact ⟨h, trivial⟩
   simp only [g4, if_false]
   by_cases g5 : nOwned t.bus c ≥ t.bus.limits.maxNames
-  · have g5' : nOwned t.bus c ≥ (shade t.bus).limits.maxNames := g5
+  · have g5' : nOwned t.bus c ≥ (shade k t.bus).limits.maxNames := g5
     simp only [g5, g5', if_true]; first | exact ⟨h, rfl⟩ | exact ⟨h, trivial⟩
-  have g5' : ¬ nOwned t.bus c ≥ (shade t.bus).limits.maxNames := g5
+  have g5' : ¬ nOwned t.bus c ≥ (shade k t.bus).limits.maxNames := g5
   simp only [g5, g5', if_false]
   first | exact ⟨shadow_applyQueue h n _ _, rfl⟩ | exact ⟨shadow_applyQueue h n _ _, trivial⟩
 
-theorem shadow_release {t t' : Tx} (h : Shadow t t') (c : ConnId) (n : Bytes) :
-    Shadow (release t c n).1 (release t' c n).1 ∧ (release t' c n).2 = (release t c n).2 := by
+theorem shadow_release {t t' : Tx} (h : Shadow k t t') (c : ConnId) (n : Bytes) :
+    Shadow k (release t c n).1 (release t' c n).1 ∧ (release t' c n).2 = (release t c n).2 := by
   unfold release
   rw [h.1]
   by_cases g1 : (!validateBusName n) = true
@@ -472,26 +505,26 @@ theorem shadow_release {t t' : Tx} (h : Shadow t t') (c : ConnId) (n : Bytes) :
   simp only [g3, if_false]
   first | exact ⟨shadow_applyQueue h n _ _, rfl⟩ | exact ⟨shadow_applyQueue h n _ _, trivial⟩
 
-theorem shadow_removeOwner {t t' : Tx} (h : Shadow t t') (n : Bytes) (c : ConnId) :
-    Shadow (removeOwner t n c) (removeOwner t' n c) := by
+theorem shadow_removeOwner {t t' : Tx} (h : Shadow k t t') (n : Bytes) (c : ConnId) :
+    Shadow k (removeOwner t n c) (removeOwner t' n c) := by
   unfold removeOwner
   rw [h.1]
   exact shadow_applyQueue h n _ _
 
-theorem shadow_ensureService {t t' : Tx} (h : Shadow t t') (n : Bytes) (c : ConnId) (flags : Nat) :
-    Shadow (ensureService t n c flags) (ensureService t' n c flags) :=
+theorem shadow_ensureService {t t' : Tx} (h : Shadow k t t') (n : Bytes) (c : ConnId) (flags : Nat) :
+    Shadow k (ensureService t n c flags) (ensureService t' n c flags) :=
   shadow_applyQueue h n _ _
 
-theorem shadow_reply {t t' : Tx} (h : Shadow t t') (c : ConnId) (call : Msg) (tys : List Ty) (body : List Val) :
-    Shadow (reply t c call tys body) (reply t' c call tys body) := shadow_sendFromDriver h c _
+theorem shadow_reply {t t' : Tx} (h : Shadow k t t') (c : ConnId) (call : Msg) (tys : List Ty) (body : List Val) :
+    Shadow k (reply t c call tys body) (reply t' c call tys body) := shadow_sendFromDriver h c _
 
 /-! ### one whole dispatch of a message that is not addressed to the bus driver -/
 
-theorem senderNameOf_shade (b : Bus) (c : ConnId) : senderNameOf (shade b) c = senderNameOf b c := by
+theorem senderNameOf_shade (b : Bus) (c : ConnId) : senderNameOf (shade k b) c = senderNameOf b c := by
   unfold senderNameOf; rw [nameOf_shade]
 
-theorem shadow_finish {t t' : Tx} (h : Shadow t t') (e : Option Err) (c : ConnId) (m : Msg) :
-    Shadow (finish (t, e) c m) (finish (t', e) c m) := by
+theorem shadow_finish {t t' : Tx} (h : Shadow k t t') (e : Option Err) (c : ConnId) (m : Msg) :
+    Shadow k (finish (t, e) c m) (finish (t', e) c m) := by
   cases e with
   | none => exact h
   | some e => exact shadow_sendFromDriver h c _
@@ -503,10 +536,10 @@ theorem shadow_finish {t t' : Tx} (h : Shadow t t') (e : Option Err) (c : ConnId
 theorem dispatch_peer_traffic_shade (tbl : List IfaceRow) (b : Bus) (c : ConnId) (x : Conn) (m0 : Msg)
     (hx : b.conn? c = some x) (hmon : x.monitor = false) (hname : x.name.isSome = true)
     (hdest : ((strip m0).setSender (senderNameOf b c)).dest ≠ some BUS_NAME) :
-    (dispatch tbl (shade b) c m0).out = (dispatch tbl b c m0).out ∧
-    (dispatch tbl (shade b) c m0).bus = shade (dispatch tbl b c m0).bus := by
-  have hn : neutral x = x := by unfold neutral; simp [hmon]
-  have hx' : (shade b).conn? c = some x := by rw [conn?_shade, hx]; simp [hn]
+    (dispatch tbl (shade k b) c m0).out = (dispatch tbl b c m0).out ∧
+    (dispatch tbl (shade k b) c m0).bus = shade k (dispatch tbl b c m0).bus := by
+  have hn : neutral k x = x := by unfold neutral; simp [hmon]
+  have hx' : (shade k b).conn? c = some x := by rw [conn?_shade, hx]; simp [hn]
   unfold dispatch
   rw [hx, hx']
   dsimp only
@@ -523,9 +556,9 @@ theorem dispatch_peer_traffic_shade (tbl : List IfaceRow) (b : Bus) (c : ConnId)
     | none => rw [hxn] at hname; cases hname
     | some _ => rfl
   simp only [hd, Bool.false_eq_true, if_false, hnn]
-  have hr := shadow_route (t := { bus := b }) (t' := { bus := shade b }) ⟨rfl, rfl⟩ c ((strip m0).setSender (senderNameOf b c))
+  have hr := shadow_route (t := { bus := b }) (t' := { bus := shade k b }) ⟨rfl, rfl⟩ c ((strip m0).setSender (senderNameOf b c))
   rcases h3 : route { bus := b } c ((strip m0).setSender (senderNameOf b c)) with ⟨t1, e1⟩
-  rcases h4 : route { bus := shade b } c ((strip m0).setSender (senderNameOf b c)) with ⟨t2, e2⟩
+  rcases h4 : route { bus := shade k b } c ((strip m0).setSender (senderNameOf b c)) with ⟨t2, e2⟩
   rw [h3, h4] at hr
   obtain ⟨hs, he⟩ := hr
   dsimp only at hs he
